@@ -43,6 +43,33 @@ class CheckError(Exception):
     pass
 
 
+def anchor_files(prop):
+    for l in open(os.path.join(ROOT, "properties.jsonl")):
+        o = json.loads(l)
+        if o["id"] == prop:
+            return o["anchors"]["files"]
+    return []
+
+
+def fingerprint(prop, repo=None):
+    """sha256 over the anchored source files of a property (drift trigger, never a verdict)"""
+    import hashlib
+    h = hashlib.sha256()
+    for f in sorted(anchor_files(prop)):
+        p = os.path.join(repo or REPO, f)
+        h.update(f.encode())
+        try:
+            h.update(open(p, "rb").read())
+        except OSError:
+            h.update(b"<missing>")
+    return h.hexdigest()
+
+
+def pinned_fingerprints():
+    p = os.path.join(ROOT, "driver", "fingerprints.json")
+    return json.load(open(p)) if os.path.exists(p) else {}
+
+
 def env_offline():
     e = dict(os.environ)
     e.setdefault("CARGO_NET_OFFLINE", "true")
@@ -339,13 +366,13 @@ class Ctx:
         os.makedirs(self.work)
         os.makedirs(EVID, exist_ok=True)
         os.makedirs(REPLAYS, exist_ok=True)
+        self.notes = []
         self.evaluations = 0
         self.nontrivial = set()
         self.samples = []
         self.dist = {}
         self.violations = []      # (description, replay dict)
         self.known_hits = []
-        self.notes = []
         self.assumptions = []
         self.obligations = []
         self.discharged = []
@@ -354,6 +381,12 @@ class Ctx:
         self.trusted = []
         self.exhaustive = False
         self.known = load_known()
+        # drift trigger: when the anchored sources differ from the ones the model was written against, the
+        # seeded part of the quick tier runs with a larger budget (scale); a changed fingerprint alone is never a verdict
+        self.drift = pinned_fingerprints().get(prop) not in (None, fingerprint(prop))
+        self.scale = 3 if (self.drift and tier == "quick") else 1
+        if self.drift:
+            self.notes.append("anchored sources differ from the pinned fingerprint: quick budget scaled x%d" % self.scale)
 
     # ---- bookkeeping
     def count(self, key, n=1):
@@ -457,6 +490,23 @@ def proof_stage(ctx, extra_targets=()):
         if extra:
             raise CheckError("theorem %s depends on non-allow-listed axioms %s" % (n, extra))
         ctx.discharged.append(n)
+    if ctx.tier == "thorough" and os.environ.get("VERIF_NO_COQCHK") != "1":
+        # independent re-check of the compiled property file and everything it depends on
+        # (reads the .vo files only; not under the build lock — retried once if a concurrent build interfered)
+        for attempt in (1, 2):
+            p = sh("timeout 1500 coqchk -o -silent -Q theories RL RL.Props.%s" % prop, cwd=COQ, timeout=1600)
+            if p.returncode == 0:
+                break
+            build_coq(coq_targets_for(prop))
+        out = p.stdout + p.stderr
+        if p.returncode != 0:
+            raise CheckError("coqchk failed on Props/%s: %s" % (prop, out[-2000:]))
+        axs = re.findall(r"^\s+([A-Za-z_][A-Za-z0-9_'.]*)\s*$", out.split("Axioms:")[-1], re.M) if "Axioms:" in out else []
+        short = set(a.split(".")[-1] for a in AXIOM_ALLOW)
+        extra = [a for a in axs if a.split(".")[-1] not in short and a not in ("<none>",)]
+        ctx.notes.append("coqchk -o: ok; axioms reported: %s" % (sorted(set(axs)) or "<none>"))
+        if extra:
+            raise CheckError("coqchk reports axioms outside the allow-list for %s: %s" % (prop, extra))
     return True
 
 
